@@ -453,10 +453,13 @@ fn build_module(s: &ModSpec) -> Option<(Vec<Inst>, Expected)> {
     let void = type_ids[0].0;
     let mut exp_funcs = vec![];
     let mut n_ops = 0usize;
-    for blocks in &s.funcs {
+    for (fi, blocks) in s.funcs.iter().enumerate() {
         let fid = next;
         next += 1;
-        insts.push(Inst::new("Function", Some(void), Some(fid), vec![Arg::Mask("FunctionControl", s.control), Arg::IdRef(int)]));
+        // every function has its own control mask and result type, so that a value taken from the wrong function shows
+        let control = (s.control + 5 * fi as u32) & 0xF;
+        let (rt, rt_index) = if fi % 2 == 0 { (void, 0usize) } else { (int, type_ids.iter().position(|x| x.0 == int).unwrap()) };
+        insts.push(Inst::new("Function", Some(rt), Some(fid), vec![Arg::Mask("FunctionControl", control), Arg::IdRef(int)]));
         let mut labels = vec![];
         let mut exp_blocks = vec![];
         for (bi, (nops, nphi, term)) in blocks.iter().enumerate() {
@@ -465,13 +468,15 @@ fn build_module(s: &ModSpec) -> Option<(Vec<Inst>, Expected)> {
             insts.push(Inst::new("Label", None, Some(l), vec![]));
             let mut last_val = None;
             let mut phis = vec![];
-            for _ in 0..*nphi {
+            for j in 0..*nphi {
                 let id = next;
                 next += 1;
-                // sources: ids that are not lifted ops (constants), so the lifter's type sanity check is skipped
+                // sources: ids that are not lifted ops (constants), so the lifter's type sanity check is skipped;
+                // each phi has its own result type
                 let src = const_ids.first().copied().unwrap_or(9);
-                insts.push(Inst::new("Phi", Some(int), Some(id), vec![Arg::IdRef(src), Arg::IdRef(l)]));
-                phis.push(type_ids.iter().position(|x| x.0 == int).unwrap());
+                let pt = (bi + j + fi) % type_ids.len();
+                insts.push(Inst::new("Phi", Some(type_ids[pt].0), Some(id), vec![Arg::IdRef(src), Arg::IdRef(l)]));
+                phis.push(pt);
             }
             for _ in 0..*nops {
                 let id = next;
@@ -509,7 +514,7 @@ fn build_module(s: &ModSpec) -> Option<(Vec<Inst>, Expected)> {
             exp_blocks.push((phis, tdbg));
         }
         insts.push(Inst::new("FunctionEnd", None, None, vec![]));
-        exp_funcs.push((s.control, exp_blocks));
+        exp_funcs.push((control, rt_index, exp_blocks));
     }
     Some((insts, Expected { caps: s.caps.clone(), types: type_debug, consts: const_debug, n_ops, funcs: exp_funcs }))
 }
@@ -519,7 +524,7 @@ struct Expected {
     types: Vec<String>,
     consts: Vec<String>,
     n_ops: usize,
-    funcs: Vec<(u32, Vec<(Vec<usize>, String)>)>,
+    funcs: Vec<(u32, usize, Vec<(Vec<usize>, String)>)>,
 }
 
 fn atoms_compact(s: &str) -> String {
@@ -580,12 +585,12 @@ fn check_module(s: &ModSpec) -> (Vec<Viol>, &'static str) {
     if m.functions.len() != exp.funcs.len() {
         bad("functions", format!("{} functions lifted for {}", m.functions.len(), exp.funcs.len()));
     } else {
-        for (fi, (f, (ctl, blocks))) in m.functions.iter().zip(exp.funcs.iter()).enumerate() {
+        for (fi, (f, (ctl, rti, blocks))) in m.functions.iter().zip(exp.funcs.iter()).enumerate() {
             if f.control.bits() != *ctl {
                 bad("function-control", format!("function {} control {:?}, input {:#x}", fi, f.control, ctl));
             }
-            if f.result.index() != 0 {
-                bad("function-result", format!("function {} result type token {}, expected the token of its result type (0)", fi, f.result.index()));
+            if f.result.index() as usize != *rti {
+                bad("function-result", format!("function {} result type token {}, expected the token of its result type ({})", fi, f.result.index(), rti));
             }
             let bl = storage_entries(&format!("{:?}", f.blocks));
             if bl.len() != blocks.len() {
@@ -685,7 +690,7 @@ pub fn run(tier: Tier) -> Run {
         for n0 in 0..=2usize {
             func_shapes.push(vec![(n0, 0, t0)]);
             for t1 in terms {
-                for p1 in 0..=1usize {
+                for p1 in 0..=2usize {
                     func_shapes.push(vec![(n0, 0, t0), (1, p1, t1)]);
                     for t2 in ["Return", "Branch", "BranchConditional"] {
                         func_shapes.push(vec![(n0, 0, t0), (1, p1, t1), (0, 1, t2)]);
